@@ -167,7 +167,7 @@ func negotiateFeatures(ctx context.Context, s *Session, first, ws bool, features
 			// If we received an empty list (or one with no supported features), we're
 			// done.
 			return Ready, nil, nil
-		case len(list.cache) == 0:
+		case list.allowed == 0:
 			// If we received a list with features we support but where none of them
 			// could be negotiated (eg. they were advertised in the wrong order), this
 			// is an error:
@@ -326,6 +326,10 @@ type streamFeaturesList struct {
 	total int
 	req   bool
 
+	// The number of cached features that could be negotiated when the list was
+	// read or written.
+	allowed int
+
 	// Namespace to sfData
 	cache map[string]sfData
 }
@@ -378,6 +382,7 @@ func writeStreamFeatures(ctx context.Context, s *Session, ws bool, features []St
 				list.req = true
 			}
 			list.total++
+			list.allowed++
 		}
 	}
 	if err = w.EncodeToken(start.End()); err != nil {
@@ -443,15 +448,19 @@ parsefeatures:
 				}
 				sf.req = sf.req || req
 
+				// Since we do support the feature, remember it along with any data
+				// returned from Parse.
+				// This includes a feature whose prerequisites do not hold right now:
+				// it is skipped when a feature is selected (where the prerequisites
+				// are checked again), but negotiating another feature of this list
+				// may change the session state so that they do.
+				sf.cache[tok.Name.Space] = sfData{
+					req:     req,
+					feature: feature,
+				}
+				s.features[tok.Name.Space] = data
 				if feature.allowed(s.state) {
-					sf.cache[tok.Name.Space] = sfData{
-						req:     req,
-						feature: feature,
-					}
-
-					// Since we do support the feature, add it to the connections list
-					// along with any data returned from Parse.
-					s.features[tok.Name.Space] = data
+					sf.allowed++
 					continue parsefeatures
 				}
 			}
